@@ -26,7 +26,7 @@ PROPS['C15'] = dict(
         dict(name='values', variant='asan', harness='c15_wopn.cpp', quick=2400, thorough=26000, budget=120),
         dict(name='bytes', variant='asan', harness='c15_wopn.cpp', quick=6000, thorough=70000, budget=60),
         dict(name='inst', variant='asan', harness='c15_wopn.cpp', quick=4000, thorough=40000, budget=60),
-        dict(name='memcheck', variant='plain-d', harness='c15_wopn.cpp', quick=200, thorough=4000, budget=1200, wall=3000,
+        dict(name='memcheck', variant='plain-d', harness='c15_wopn.cpp', quick=200, thorough=4000, budget=150, wall=2400,
              wrapper=['valgrind', '-q', '--error-exitcode=79', '--exit-on-first-error=yes', '--track-origins=no', '--leak-check=no']),
     ],
 )
